@@ -148,7 +148,8 @@ def r2(ctx):
             rule.check(k == "key" and exp_ok, "IpVote::insert stores (socket, now + vote_duration) under the peer's id", "IpVote::insert|entry",
                        "IpVote::insert stores %s under %s" % (fmt_short(v), k), loc=ins.loc(t.line))
     if n != 2:
-        rule.fail("IpVote::insert|sites", "IpVote::insert writes %d maps (2 confirmed by hand)" % n)
+        rule.fail("IpVote::insert|overwrite", "IpVote::insert stores a vote with HashMap::insert (replacing the peer's previous vote) at %d sites instead of 2 (one per family): "
+                  "a peer's earlier vote may survive its latest one" % n, loc=ins.loc(ins.line))
     hv = facts.one(re.escape(SV) + "handle_ip_vote_from_pong")
     pv = Prov(hv, facts)
     for bi, t in hv.calls():
